@@ -3,6 +3,7 @@ C02 — Conflicts resolve by operation timestamp, identically on every replica.
 The outcome is a fixed function (Spec/Denote) of the SET of operations.
 -/
 import Orda.Proofs.MapCounter
+import Orda.Proofs.Rga
 namespace Orda.Props.C02
 open Orda
 
@@ -34,6 +35,18 @@ theorem counter_is_wrapped_sum (ops : List Op) : ops.foldl counterApply 0 = Spec
   counter_denote ops
 
 theorem counter_in_int32 (x : Int) : -2147483648 ≤ wrap32 x ∧ wrap32 x < 2147483648 := wrap32_range x
+
+/-- list: elements inserted concurrently at the same place appear newest first -/
+theorem list_siblings_newest_first (ops : List InsOp) (hc : InsCausal ops) (a b : InsOp)
+    (ha : a ∈ ops) (hb : b ∈ ops) (hanch : a.anchor = b.anchor) (hlt : a.ts.cmp b.ts = .lt) :
+    ∃ l1 l2 l3, (Rga.empty.applyAllIns ops).ids = l1 ++ b.ts :: l2 ++ a.ts :: l3 :=
+  rga_siblings_newest_first ops hc a b ha hb hanch hlt
+
+/-- list: a deleted element stays deleted — an update never revives it, in either arrival order -/
+theorem list_delete_dominates (s s' : Rga) (tg : List Ts) (vs : List JVal) (ts : Ts) (x : Ts)
+    (hu : s.updateRemote tg vs ts = .ok s') (h : ∃ n ∈ s.nodes, n.o = x ∧ n.v = none) :
+    ∃ n ∈ s'.nodes, n.o = x ∧ n.v = none :=
+  updateRemote_keeps_tomb s s' tg vs ts x hu h
 
 -- non-vacuity: a concrete conflict (remove older than a concurrent put) resolves to the put
 example :
